@@ -236,7 +236,7 @@ def make_algo(sc, env):
             def main_lao_star_loop(self, lv):
                 cb()
         return m.LAOStar(heuristic=lambda s: p['h'], seed=seed, randomize_action_order=p['rao'], randomize_nextstate_order=p['rno'],
-                         event_listener_class=L)
+                         event_listener_class=L, max_lao_star_iterations=5000)
     if comp == 'lrtdp':
         import msdm.algorithms.lrtdp as m
 
@@ -246,7 +246,8 @@ def make_algo(sc, env):
 
             def end_of_lrtdp_trial(self, lv):
                 cb()
-        return m.LRTDP(heuristic=lambda s: p['h'], seed=seed, randomize_action_order=p['rao'], bellman_error_margin=p['eps'], event_listener_class=L)
+        return m.LRTDP(heuristic=lambda s: p['h'], seed=seed, randomize_action_order=p['rao'], bellman_error_margin=p['eps'], event_listener_class=L,
+                       iterations=3000)        # a run that stops converging shows as a different result, not as a hang
     if comp == 'astar':
         import msdm.algorithms.search as m
         return m.AStarSearch(seed=seed, tie_breaking_strategy=p['tie'], randomize_action_order=p['rao'])
